@@ -846,6 +846,27 @@ class Engine:
         self.inc(f"sibling_sequences_{cmd['how']}")
         return events
 
+    def resync_model(self, cmd: dict[str, Any]) -> None:
+        """after a generation that raced with an add on the same pair: adopt, for the factory's other types, whatever the context
+        now reports (the statement leaves open whether the interrupted generation's product is kept for them)"""
+        from models.ctxtree import MRes
+
+        cid, name = cmd["cid"], cmd["name"]
+        mc = self.model.ctxs[cid]
+        ctx = self.ctx_objs[cid]
+        for ti in range(len(POOL)):
+            got = ctx.get_resources(POOL[ti])
+            obj = got.get(name)
+            key = (ti, name)
+            if obj is None:
+                mc.resources.pop(key, None)
+            elif key not in mc.resources or self.objs.get(mc.resources[key].tag) is not obj:
+                tag = self.tag_of.get(id(obj))
+                if tag is None:
+                    tag = ("adopted", cmd["vid"], ti)
+                    self.pin(tag, obj)
+                mc.resources[key] = MRes(tag, (ti,), name, None, generated=isinstance(obj, Product))
+
     async def do_race_add(self, cmd: dict[str, Any], calls_before: dict[int, int]) -> list[Any]:
         """one task triggers an async multi-type factory, another adds a static resource under one of the factory's
         other (still free) types while the factory is suspended; both are then looked up again"""
@@ -887,14 +908,40 @@ class Engine:
         self.inc("race_add_cases")
         if state["add_before_lookup_done"]:
             self.inc("race_add_during_generation")
+            if t1 == t2:
+                self.inc("race_add_on_the_pair_being_generated")
             self.nontrivial = True
+            mf = self.model.ctxs[cid].factories.get((t1, name))
             exp_add, ev1 = self.model.add_resource(cid, tag, t2, name, [t2], None, None)
             exp_look, ev2, generation = self.model.lookup(cid, t1, name, False, False)
+            if t1 == t2 and exp_add[0] == "ok" and mf is not None:
+                free = tuple(tt for tt in mf.types if (tt, mf.name) not in self.model.ctxs[cid].resources)
+                ev2 = [(cid, [tuple(mf.types), free], mf.name, mf.desc, False)]
+                # the pair now belongs to the added resource: whatever the interrupted generation produced, this lookup and
+                # every later one must agree on ONE object; the statement does not say which of the two wins for the
+                # in-flight call, so only agreement is demanded (checked below)
+                ev2_full, ev2 = ev2, []
+                generation = None
         else:
             exp_look, ev2, generation = self.model.lookup(cid, t1, name, False, False)
             exp_add, ev1 = self.model.add_resource(cid, tag, t2, name, [t2], None, None)
         events = ev1 + ev2
         self.check_outcome("add", exp_add, state["add"], cmd)
+        same_pair = t1 == t2 and state["add_before_lookup_done"] and exp_add[0] == "ok"
+        if same_pair:
+            # agreement: the object handed to the in-flight lookup must be what the pair resolves to from now on
+            later = await self.one_lookup(cid, "nowait", t1, name, True)
+            got = state["lookup"]
+            if got[0] != "ok" or later[0] != "ok" or got[1] is not later[1]:
+                self.bad("singleton-different-object", f"{cmd}: the lookup that was generating ({POOL[t1].__name__ if t1 < 6 else t1}, {name!r}) while add_resource() took "
+                                                       f"that pair returned {self.tagname(got[1]) if got[0] == 'ok' and id(got[1]) in self.tag_of else got[1]!r}, "
+                                                       f"but the pair now resolves to {self.tagname(later[1]) if later[0] == 'ok' else later[1]!r}")
+            # events: the add is announced exactly once; the interrupted generation is announced iff its product was kept
+            # under some other type of the factory (the statement leaves that choice open) - decided from what the context holds
+            known = set(self.tag_of)
+            self.resync_model(cmd)
+            kept = any(id(o) not in known for o in (self.objs[r.tag] for r in self.model.ctxs[cid].resources.values() if r.tag in self.objs))
+            return ev1 + (ev2_full if kept else [])
         if self.check_outcome("lookup[factory]", exp_look, state["lookup"], cmd) and exp_look[0] == "ok":
             gtag, obj = exp_look[1], state["lookup"][1]
             if gtag not in self.objs and isinstance(obj, Product) and id(obj) not in self.tag_of:
@@ -998,8 +1045,9 @@ class Engine:
             t, nm = rng.choice(fk)
             f = mc.factories[(t, nm)]
             others = [tt for tt in f.types if tt != t and (tt, nm) not in mc.resources]
-            if f.is_async and others and rng.random() < 0.4:
-                return {"op": "race_add", "cid": cid, "type": t, "other_type": rng.choice(others), "name": nm, "vid": self.fresh(),
+            if f.is_async and rng.random() < 0.4:
+                # the concurrent add_resource targets another type of the factory - or the very pair being generated
+                return {"op": "race_add", "cid": cid, "type": t, "other_type": rng.choice(others + [t]), "name": nm, "vid": self.fresh(),
                         "pre": rng.randint(0, 4), "yields": rng.randint(1, 3)}
             pre = [rng.randint(0, 3) for _ in range(rng.randint(2, 5))]
             free = [tt for tt in f.types if (tt, nm) not in mc.resources]
